@@ -2,7 +2,10 @@
 
 package zygo
 
-import "fmt"
+import (
+	"bytes"
+	"fmt"
+)
 
 // The shared differential-evaluation harness: a direct reference evaluator
 // for the core language (DESIGN.md "vh_eval" and Appendix A), a host trace
@@ -22,6 +25,7 @@ const (
 	vrStr
 	vrSym
 	vrLazy
+	vrSrc
 )
 
 type vrVal struct {
@@ -32,6 +36,7 @@ type vrVal struct {
 	elems []vrVal
 	s     string
 	lazy  *vrThunk
+	src   Sexp
 }
 
 type vrFunc struct {
@@ -187,7 +192,7 @@ func (ev *vrEval) eval(x Sexp, env *vrEnv) vrVal {
 
 func vrIsBuiltin(name string) bool {
 	switch name {
-	case "+", "-", "*", "<", "<=", ">", ">=", "==", "!=", "t", "list", "array", "apply", "map", "not", "force", "first", "len":
+	case "+", "-", "*", "<", "<=", ">", ">=", "==", "!=", "t", "list", "array", "apply", "map", "not", "force", "first", "len", "rest", "append", "aget", "substitute":
 		return true
 	}
 	return false
@@ -442,12 +447,43 @@ func (ev *vrEval) builtin(name string, vals []vrVal) vrVal {
 	case "force":
 		need(1)
 		return ev.force(vals[0])
+	case "substitute":
+		need(1)
+		if vals[0].k != vrLazy {
+			return vals[0]
+		}
+		return vrVal{k: vrSrc, src: vals[0].lazy.expr}
 	case "first":
 		need(1)
 		if (vals[0].k != vrList && vals[0].k != vrArr) || len(vals[0].elems) == 0 {
 			vrFail("type")
 		}
 		return vals[0].elems[0]
+	case "rest":
+		need(1)
+		if vals[0].k != vrList || len(vals[0].elems) == 0 {
+			vrFail("type")
+		}
+		if len(vals[0].elems) == 1 {
+			return vrVal{}
+		}
+		return vrVal{k: vrList, elems: vals[0].elems[1:]}
+	case "append":
+		need(2)
+		if vals[0].k != vrArr {
+			vrFail("type")
+		}
+		out := vrVal{k: vrArr, elems: append(append([]vrVal{}, vals[0].elems...), vals[1])}
+		return out
+	case "aget":
+		need(2)
+		if vals[0].k != vrArr || vals[1].k != vrInt {
+			vrFail("type")
+		}
+		if vals[1].i < 0 || vals[1].i >= int64(len(vals[0].elems)) {
+			vrFail("index")
+		}
+		return vals[0].elems[vals[1].i]
 	case "len":
 		need(1)
 		switch vals[0].k {
@@ -574,6 +610,8 @@ func vrMatch(real Sexp, want vrVal) bool {
 	case vrLazy:
 		_, ok := real.(*SexpLazyArg)
 		return ok
+	case vrSrc:
+		return vSexpEq(real, want.src)
 	}
 	return false
 }
@@ -678,6 +716,44 @@ func vA(env *Zlisp, xs ...Sexp) Sexp  { return &SexpArray{Val: xs, Env: env} }
 // vSmallInt is a symbolic int kept inside +-2^31 (C07 owns the boundaries).
 func vSmallInt(name string) Sexp {
 	v := vInt64(name)
-	vAssume(v > -(1<<31) && v < 1<<31)
+	// one comparison (no short-circuit fork): -2^31 < v < 2^31
+	vAssume(uint64(v+(1<<31)-1) < (1<<32)-2)
 	return &SexpInt{Val: v}
+}
+
+// vT parses a concrete program text into forms and substitutes the integer
+// literals 9001, 9002, ... by holes[0], holes[1], ... (symbolic operands in
+// an otherwise concrete program).
+func vT(env *Zlisp, text string, holes ...Sexp) []Sexp {
+	env.parser.ResetAddNewInput(bytes.NewBuffer([]byte(text + "\n")))
+	xs, err := env.parser.ParseTokens()
+	if err != nil {
+		panic("verif: template does not parse: " + text)
+	}
+	out := make([]Sexp, 0, len(xs))
+	for _, x := range xs {
+		if _, isComment := x.(*SexpComment); isComment {
+			continue
+		}
+		out = append(out, vSubst(x, holes))
+	}
+	return out
+}
+
+func vSubst(x Sexp, holes []Sexp) Sexp {
+	switch t := x.(type) {
+	case *SexpInt:
+		if t.Val > 9000 && int(t.Val-9001) < len(holes) {
+			return holes[t.Val-9001]
+		}
+	case *SexpPair:
+		return &SexpPair{Head: vSubst(t.Head, holes), Tail: vSubst(t.Tail, holes)}
+	case *SexpArray:
+		out := make([]Sexp, len(t.Val))
+		for i := range t.Val {
+			out[i] = vSubst(t.Val[i], holes)
+		}
+		return &SexpArray{Val: out, Env: t.Env, Typ: t.Typ}
+	}
+	return x
 }
